@@ -108,11 +108,10 @@ impl<T> OneShotShared<T> {
           }
         }
       }
-      // If state was WRITING, TAKEN, or CLOSED, wake the receiver if needed.
-      else if self.state.load(Ordering::Relaxed) != STATE_TAKEN
-        && self.state.load(Ordering::Relaxed) != STATE_SENT
-      {
-        // Avoid waking if value is there or taken
+      // In every other state wake the receiver: one that awaits again after taking the
+      // value must observe Disconnected now, and the wake-up orders the count above before
+      // the re-check a concurrently registering receiver makes. A spurious wake is harmless.
+      else {
         self.receiver_waker.wake();
       }
     }
@@ -336,6 +335,13 @@ impl<T> OneShotShared<T> {
             }
             Err(TryRecvError::Empty) => {
               // Still empty
+              // The value was already taken and the last sender went away before the waker was
+              // registered: its wake-up found nobody, so nothing would ever wake this future.
+              if self.state.load(Ordering::Acquire) == STATE_TAKEN
+                && self.sender_count.load(Ordering::Acquire) == 0
+              {
+                return Poll::Ready(Err(RecvError::Disconnected));
+              }
               // Waker is correctly registered for the current "empty" state.
               return Poll::Pending;
             }
